@@ -525,6 +525,10 @@ func runPool(mode string) sim.RigFunc {
 				if r.tryDuration == 0 {
 					r.tryDuration = 5 * time.Second
 				}
+				if r.retryMode == "healthy-exists" && st.Draw(4) == 0 {
+					// a failure mark that has expired again by the time of the next attempt
+					r.failTimeout = 50 * time.Millisecond
+				}
 			}
 		}
 		// (intervals that divide no fail_timeout: a retry poll and a failure expiry
@@ -934,6 +938,10 @@ func (r *poolRig) judgeRequests() {
 				c.Probe("retry-answered-by-healthy")
 			} else if elapsed < r.tryDuration {
 				c.Violate("C05/gave-up-early", fmt.Sprintf("policy=%s/pool=%d", r.policy, r.n), "request %d failed with %d after %s although a healthy backend exists and try_duration is %s (attempts %v)", q.id, q.status, elapsed, r.tryDuration, attemptHosts(q))
+			} else if tried := attemptHosts(q); r.failTimeout < r.tryInterval && !triedHealthy(tried, r.down) &&
+				(r.policy == "first" || r.policy == "ip_hash" || r.policy == "uri_hash" || r.policy == "header") {
+				// the whole duration was spent on backends that fail every time, the healthy one was never asked
+				c.Violate("C05/healthy-backend-never-tried", "fail_timeout-shorter-than-try_interval/sticky-policy", "request %d failed with %d after %s (try_duration %s, try_interval %s, fail_timeout %s, policy %s): every one of its %d attempts went to a failing backend (%v) although a healthy one exists", q.id, q.status, elapsed, r.tryDuration, r.tryInterval, r.failTimeout, r.policy, len(tried), tried)
 			} else {
 				c.Probe("retry-oracle-inapplicable(duration-spent)")
 			}
@@ -948,6 +956,15 @@ func (r *poolRig) judgeRequests() {
 			c.Probe("all-failing-502")
 		}
 	}
+}
+
+func triedHealthy(tried []int, down []bool) bool {
+	for _, h := range tried {
+		if h >= 0 && h < len(down) && !down[h] {
+			return true
+		}
+	}
+	return false
 }
 
 func attemptHosts(q *preq) []int {
